@@ -257,15 +257,11 @@ def check_inplace(run, cx, cfg):
     UNCH = 'dasp_slice::zip_map_in_place_unchecked'
     ZIP = 'dasp_slice::zip_map_in_place'
     MAP = 'dasp_slice::map_in_place'
-    # who may call the unchecked loop
-    callers = set()
-    for b in cx.facts.bodies.values():
-        for i, t in mirutil.calls(b):
-            if mirutil.resolved_path(t) == UNCH:
-                callers.add(b['path'])
+    # who may call the unchecked loop: zip_map_in_place (which establishes equal lengths), possibly through private helpers
+    callers, offenders = callers_confined(cx.facts, UNCH, {ZIP})
     info = cx.facts.fns.get(UNCH, {})
-    run.check(callers == {ZIP} and info.get('pub') is False and info.get('unsafe') is True, 'inplace.who-may-call', UNCH, cfg,
-              'the unchecked loop must be private, unsafe and called only from zip_map_in_place (callers: %s, pub=%s)' % (sorted(callers), info.get('pub')))
+    run.check(not offenders and info.get('pub') is False and info.get('unsafe') is True, 'inplace.who-may-call', UNCH, cfg,
+              'the unchecked loop must be private, unsafe and reachable only from zip_map_in_place (also reachable from: %s, pub=%s)' % (sorted(offenders), info.get('pub')))
     # positive control: the matcher sees calls at all
     run.check(len(callers) >= 1, 'inplace.who-may-call', UNCH, cfg + ':positive-control', 'no caller of the unchecked loop found (matcher blind)')
     body = cx.body(ZIP)
